@@ -1,0 +1,19 @@
+//go:build verif
+
+package route
+
+import "net/url"
+
+// Read-only export for the verification harness (property C12).
+
+// VerifTable builds a one-route table ("" host, path "/") whose only target was
+// appended by the real Route.addTarget, so that the harness can go through the
+// real Table.Lookup (which hands out a per-request copy of a redirect target).
+func VerifTable(service string, u *url.URL, opts map[string]string) (Table, *Target) {
+	r := &Route{Host: "", Path: "/"}
+	r.addTarget(service, u, 0, nil, opts)
+	if len(r.Targets) != 1 {
+		return nil, nil
+	}
+	return Table{"": Routes{r}}, r.Targets[0]
+}
